@@ -125,7 +125,8 @@ def plan(seed, subbatch):
                                                         # derived from trimmed base candles is the known C08 finding)
                                                         preload=min(cfg.choice((0, 0, 1, 5)), 1 if short_life else 5))
     return {"format": 1, "property": ID, "seed": seed, "subbatch": subbatch,
-            "config": {"process_tz": env[0] if env else None, "kind": kind, "members": members, "lifespan_s": lifespan_s, "base_s": base_s, "fill": fill_hex},
+            "config": {"sharing_neighbour": (kind == "indicator" and not any(m["common"].get("timeframe") for m in members)
+                                             and sub_rng(seed, "sharing").random() < 0.15), "sim_now": planlib.pick_sim_now(sub_rng(seed, "sim-now"), rows), "process_tz": env[0] if env else None, "kind": kind, "members": members, "lifespan_s": lifespan_s, "base_s": base_s, "fill": fill_hex},
             "ops": [{"op": "new", "preload": pre}] + ops, "fired": dict(fired)}
 
 
@@ -170,7 +171,7 @@ def execute(trace, ctx=None):
         label = "+".join(spec_label(m) for m in cfg["members"])
         tfs = [m["common"].get("timeframe") for m in cfg["members"]]
         delivered = []
-        subject = twin = None
+        subject = twin = neighbour = None
         s_members = t_members = None
         armed = True
         ever_evicted = False
@@ -230,8 +231,24 @@ def execute(trace, ctx=None):
             try:
                 if kind == "new":
                     subject, s_members = run.call(filled_size(rows, tfs) * 4, _build, cfg, rows, True)
+                    if cfg.get("sharing_neighbour"):
+                        # another owner in the same process with a SHORTER lifespan and another indicator, fed the very
+                        # same Candle objects as the subject from now on: what it trims is still inside the subject's window
+                        from datetime import timedelta
+
+                        from hexital import OBV, TR, HighLowAverage
+
+                        taken = {ind.name for _s, ind in s_members}
+                        cls = next(c for c in (OBV, HighLowAverage, TR) if c().name not in taken)   # another NAME
+                        neighbour = cls(candles=[], candles_lifespan=timedelta(seconds=max(life // 4, 0)))
                 else:
-                    run.call(filled_size(delivered, tfs) * 4, subject.append, mk_candles(rows))
+                    objs = mk_candles(rows)
+                    if neighbour is not None and objs:
+                        try:
+                            neighbour.append(objs)
+                        except Exception:  # noqa: BLE001 - the neighbour is not the subject
+                            pass
+                    run.call(filled_size(delivered, tfs) * 4, subject.append, objs)
             except LibError as e:
                 if not armed:
                     run.stats["guard:exception_while_disarmed"] += 1
